@@ -4022,6 +4022,10 @@ validate_trait_complex(
                         > 0)) {
                     goto done;
                 }
+                /* A failing isinstance check (for example a raising
+                   __instancecheck__) counts as a non-match, as it does
+                   in validate_trait_instance. */
+                PyErr_Clear();
                 break;
             }
             case 2: /* Self type check: */
